@@ -162,9 +162,9 @@ def containers(prop, res, binary, label, seed, nseq, nops, valgrind=False):
             code = -999
     txt = open(logp, errors="replace").read()
     stats = {}
-    m = re.search(r"OK sequences=(\d+) ops=(\d+) checks=(\d+) growths=(\d+) mutations_through_index=(\d+)(?: moved_from_own_element=(\d+))?(?: single_pass_ranges=(\d+))?", txt)
+    m = re.search(r"OK sequences=(\d+) ops=(\d+) checks=(\d+) growths=(\d+) mutations_through_index=(\d+)(?: moved_from_own_element=(\d+))?(?: single_pass_ranges=(\d+))?(?: writes_through_slices=(\d+))?", txt)
     if m:
-        stats = dict(sequences=int(m.group(1)), ops=int(m.group(2)), checks=int(m.group(3)), growths=int(m.group(4)), mutations=int(m.group(5)), moved_from_own_element=int(m.group(6) or 0), single_pass_ranges=int(m.group(7) or 0))
+        stats = dict(sequences=int(m.group(1)), ops=int(m.group(2)), checks=int(m.group(3)), growths=int(m.group(4)), mutations=int(m.group(5)), moved_from_own_element=int(m.group(6) or 0), single_pass_ranges=int(m.group(7) or 0), writes_through_slices=int(m.group(8) or 0))
     reports = sanitizer_kinds(logp)
     mm = re.search(r"MISMATCH (.*)", txt)
     if mm:
@@ -231,6 +231,7 @@ def run(prop, tier, seed, job, res):
         container_capacity_growths=cstats.get("growths", 0),
         container_push_back_of_own_element_moved=cstats.get("moved_from_own_element", 0),
         container_ranges_from_single_pass_iterators=cstats.get("single_pass_ranges", 0),
+        container_writes_through_mutable_slices=cstats.get("writes_through_slices", 0),
         container_sequences_valgrind=vstats.get("sequences", 0),
         container_ops_valgrind=vstats.get("ops", 0),
         ffi_miri=mstats,
